@@ -39,7 +39,11 @@ static void print_lane_pos()
 	fflush(stderr);
 }
 
-void steps_begin(uint64_t budget) { t_steps = 0; t_budget = budget; t_clock_on = true; }
+// The callers state the budget as "3000 basic blocks per byte of input (+4 KiB)", which is what one pass costs at most. A stream
+// that delivers 1-3 bytes per call while the program asks for members out of order (every request = one backward seek = one chunk
+// re-read) legitimately costs a multiple of that: the clock therefore allows 32 passes. An endless loop exceeds any multiple.
+static const uint64_t kPasses = 32;
+void steps_begin(uint64_t budget) { t_steps = 0; t_budget = budget > UINT64_MAX / kPasses ? UINT64_MAX : budget * kPasses; t_clock_on = true; }
 uint64_t steps_now() { return t_steps; }
 void steps_end() { t_clock_on = false; t_budget = UINT64_MAX; }
 uint64_t cov_total() { return g_cov_n; }
@@ -196,7 +200,7 @@ void ev_reset(bool keepTrace)
 	g_ev_trace_n = 0;
 	g_stream_calls = 0;
 }
-void stream_call_budget(uint64_t b) { g_stream_budget = b; }
+void stream_call_budget(uint64_t b) { g_stream_budget = b > UINT64_MAX / kPasses ? UINT64_MAX : b * kPasses; }
 uint64_t stream_calls() { return g_stream_calls; }
 
 static FILE* g_ev_debug = nullptr;
